@@ -13,7 +13,7 @@ import tempfile
 from .. import common
 from ..codec import to_coq, coq_str, same
 
-GEN = ['JsonUtilGen.v', 'Decisions.v']
+GEN = ['JsonUtilGen.v', 'Decisions.v', 'CacheGen.v']
 DECISIONS = ['Cache.subbuild_key', 'FileBuilder._sanitize_filename', 'FileBuilder._sanitize_args', 'FileBuilder._build_file_cache_lookup', 'FileBuilder._subbuild_cache_lookup']
 SITES = False
 ORDER = False
